@@ -521,6 +521,85 @@ def predict (f : Field) (cur val : Const) : Pred :=
   | .int | .uint | .bool | .str | .float | .ptrint => predictScalar f cur val
   | _ => Pred.unknown
 
+
+/-! ## config.Manager: a whole configuration file (config/config.go LoadJSON / ToJSON / ToDisplayJSON)
+
+After `json.Unmarshal` a file is: the `cluster` object (a nil pointer when the key is absent or `null`) and, per
+section group (`consensus`, `api`, …), a Go map component-name → raw JSON (`nil` for `"name": null`; an absent
+or `null` group is the empty map; a group of another JSON type is refused by `Unmarshal` and is not a `File`;
+top-level keys other than `source`, `cluster` and the ten groups are dropped by `Unmarshal`).  Duplicate keys:
+the last one wins (`lookupLast`).  The Manager keeps the parsed file (`jsonCfg`) and `ToJSON` writes every
+*registered* component into it — so unknown component names are **kept** verbatim, registered components that
+the file did not define are **written** with their defaults, and `ToDisplayJSON` starts from an empty file — so
+unknown components are **not displayed**.  `DisplayJSON` masks the top-level fields tagged `hidden:"true"`.
+
+`σ`: a component's Config; `V`: JSON values.  Registered components are given as a partial function
+group → name → spec, files and Manager states likewise (Go maps); `Loads` is a relation. -/
+namespace Mgr
+
+abbrev CompJ (V : Type) := List (String × V)
+
+structure CompSpec (σ V : Type) where
+  load : CompJ V → Option σ     -- LoadJSON (Default(), apply, Validate); none = error
+  dflt : σ
+  save : σ → CompJ V
+  hidden : List String          -- top-level keys tagged hidden:"true"
+
+inductive Entry (V : Type) | null | obj (j : CompJ V)
+
+structure File (V : Type) where
+  cluster : Option (CompJ V)
+  entry : String → String → Option (Entry V)
+
+structure Reg (σ V : Type) where
+  cluster : CompSpec σ V
+  spec : String → String → Option (CompSpec σ V)
+
+structure State (σ V : Type) where
+  cluster : Option σ            -- none: the cluster section was never loaded (does not validate)
+  comp : String → String → Option σ
+  raw : File V
+
+/-- duplicate keys of a JSON object: the last one wins -/
+def lookupLast (l : List (String × α)) (k : String) : Option α := (l.reverse.find? (·.1 == k)).map (·.2)
+
+/-- `Manager.LoadJSON` of a plain file on a Manager in state `prev` accepts and ends in state `s` -/
+def Loads (r : Reg σ V) (prev : State σ V) (f : File V) (s : State σ V) : Prop :=
+  (match f.cluster with
+    | none => s.cluster = prev.cluster
+    | some j => ∃ c, r.cluster.load j = some c ∧ s.cluster = some c) ∧
+  s.cluster ≠ none ∧
+  (∀ g n, match r.spec g n with
+    | none => s.comp g n = none
+    | some sp => match f.entry g n with
+      | none => s.comp g n = some sp.dflt
+      | some .null => False
+      | some (.obj j) => ∃ x, sp.load j = some x ∧ s.comp g n = some x) ∧
+  s.raw = f
+
+/-- `Manager.ToJSON` (no source set): refuses when the cluster section does not validate -/
+def saved (r : Reg σ V) (s : State σ V) : Option (File V) :=
+  match s.cluster with
+  | none => none
+  | some c => some
+    { cluster := some (r.cluster.save c),
+      entry := fun g n => match r.spec g n, s.comp g n with
+        | some sp, some x => some (.obj (sp.save x))
+        | _, _ => s.raw.entry g n }
+
+/-- `config.DisplayJSON`: top-level hidden fields replaced by a constant -/
+def mask (hidden : List String) (maskV : V) (j : CompJ V) : CompJ V :=
+  j.map fun kv => if hidden.contains kv.1 then (kv.1, maskV) else kv
+
+/-- `Manager.ToDisplayJSON`: starts from an empty file, writes the masked form of every registered component -/
+def display (r : Reg σ V) (maskV : V) (s : State σ V) : File V :=
+  { cluster := s.cluster.map fun c => mask r.cluster.hidden maskV (r.cluster.save c),
+    entry := fun g n => match r.spec g n, s.comp g n with
+      | some sp, some x => some (.obj (mask sp.hidden maskV (sp.save x)))
+      | _, _ => none }
+
+end Mgr
+
 /-! ## config.Manager and the remote `source` of a configuration (config/config.go:355-475, 496-515)
 
 A configuration document either is not parsable, or declares a non-empty `"source"` URL (everything else in
